@@ -30,10 +30,10 @@ use crate::subshell::{BlockSignals, Config};
 use crate::system::concurrency::WaitForSignals;
 use crate::system::resource::SetRlimit;
 use crate::system::{
-    Close, Dup, Errno, Exec, Exit, Fork, GetPid, Open, SendSignal, SetPgid, ShellPath, TcSetPgrp,
-    Wait,
+    Close, Disposition, Dup, Errno, Exec, Exit, Fork, GetPid, Open, SendSignal, SetPgid, ShellPath,
+    TcSetPgrp, Wait,
 };
-use crate::trap::SignalSystem;
+use crate::trap::{Action, Condition, SignalSystem};
 use itertools::Itertools as _;
 use std::convert::Infallible;
 use std::ffi::CString;
@@ -150,12 +150,40 @@ pub async fn replace_current_process<S: Exec + ShellPath + SignalSystem>(
         .await
         .ok();
 
+    // A signal caught for a trap is kept blocked while the shell is not waiting
+    // for it. `execve` resets the disposition of a caught signal to the
+    // default, but the new program would inherit the signal mask, so we set
+    // the default disposition beforehand, which also unblocks the signal.
+    let caught_signals = env
+        .traps
+        .iter()
+        .filter_map(|(condition, state, _)| match (condition, &state.action) {
+            (Condition::Signal(signal), Action::Command(_)) => Some(*signal),
+            _ => None,
+        })
+        .collect::<Vec<_>>();
+    for &signal in &caught_signals {
+        (env.system)
+            .set_disposition(signal, Disposition::Default)
+            .await
+            .ok();
+    }
+
     let args = to_c_strings(args);
     let envs = env.variables.env_c_strings();
     let Err(errno) = env
         .system
         .execve(path.as_c_str(), args.as_slice(), envs.as_slice())
         .await;
+
+    // The shell may go on if it is interactive, so the traps must keep working.
+    for &signal in &caught_signals {
+        (env.system)
+            .set_disposition(signal, Disposition::Catch)
+            .await
+            .ok();
+    }
+
     env.exit_status = match errno {
         Errno::ENOEXEC => {
             fall_back_on_sh(&env.system, path.clone(), args, envs).await;
